@@ -387,6 +387,13 @@ func step(s *side, bkt string, o op) ([]*s3c.Resp, error) {
 		return one(cl.Call("HEAD", path, nil, []s3c.KV{{K: "x-amz-checksum-mode", V: "ENABLED"}}, nil))
 	case "headbucket":
 		return one(cl.Call("HEAD", "/"+bkt, nil, nil, nil))
+	case "mkbucket":
+		// the bucket exists: creating it again is refused and leaves it (owner, ACL) as it is
+		var h []s3c.KV
+		if o.Meta%3 == 1 {
+			h = []s3c.KV{{K: "x-amz-acl", V: "public-read"}, {K: "x-amz-object-ownership", V: "BucketOwnerPreferred"}}
+		}
+		return one(cl.Call("PUT", "/"+bkt, nil, h, nil))
 	case "range":
 		return one(cl.Call("GET", path, nil, []s3c.KV{{K: "Range", V: o.Range}}, nil))
 	case "getif":
@@ -822,7 +829,7 @@ var strict bool // replay of an open finding: no narrowing
 
 var singleKinds = []string{"put", "put", "put", "put", "get", "get", "getchk", "head", "headchk", "headbucket", "range", "getif", "attrs", "copy", "copy", "delete", "delobjs",
 	"tagput", "tagget", "tagdel", "list", "list", "list1", "listbuckets", "policyput", "policyget", "policydel", "ownput", "ownget", "aclput", "aclget",
-	"verget", "verput", "listversions", "missingget", "missingbucket", "mpulist", "mpulistparts", "mpucomplete", "mpuabort", "mpupart", "btagput", "btagget", "btagdel", "mpuseq", "mpuseq", "mpuseq", "restart"}
+	"verget", "verput", "listversions", "missingget", "missingbucket", "mkbucket", "mpulist", "mpulistparts", "mpucomplete", "mpuabort", "mpupart", "btagput", "btagget", "btagdel", "mpuseq", "mpuseq", "mpuseq", "restart"}
 
 func opsGen(thorough bool) *rapid.Generator[[]op] {
 	return rapid.Custom(func(t *rapid.T) []op {
